@@ -6,9 +6,9 @@ import FP.Model.Parser
 Request: `{"op":"parse", "lines":[{"k":"header","text":s} | {"k":"subpath","tokens":[s..]} | {"k":"blank"}
 | {"k":"data","text":s,"tokens":[s..]}], "ints":[[s, int|null]..], "floats":[[s, str|null]..], "single":bool}`.
 `ints` / `floats` tabulate python's `int()` / `float()` on the strings occurring in the file (null = ValueError);
-a float travels as the canonical exact rational string (or `nan`, `inf`, `-inf`).  The width oracle is `()`.
+a float travels as the canonical exact rational string (or `nan`, `inf`, `-inf`).  The width oracle answers `"oracle"`, the literal zero width `"0"`.
 `single = true` runs `read_graph` on the lines as one block.
-Answer: `{"graphs":[{"nodes","edges"(networkx order),"id","constraints","n","m","w"(stored?)}..]}` or
+Answer: `{"graphs":[{"nodes","edges"(networkx order),"id","constraints","n","m","w"(null | "0" | "oracle")}..]}` or
 `{"error":"ValueError","kind":..}`.
 -/
 namespace FP.Parser
@@ -41,6 +41,7 @@ def tableFn {α} (t : List (String × Option α)) (s : String) : Option α := (t
 
 def errName : PErr → String
   | .missingCount => "missingCount" | .badCount => "badCount" | .badEdgeFormat => "badEdgeFormat"
+  | .zeroWithConstraints => "zeroWithConstraints" | .zeroWithData => "zeroWithData"
   | .badWeight => "badWeight" | .constraintEdgeMissing => "constraintEdgeMissing"
   | .noSourceOrSink => "noSourceOrSink"
 
@@ -48,7 +49,7 @@ def optNatJ : Option Nat → Json
   | some n => Json.num n
   | none => Json.null
 
-def pgraphJson (g : PGraph String String Unit) : Json :=
+def pgraphJson (g : PGraph String String String) : Json :=
   let gr : Gr String String := { nodes := g.nodes, edges := g.edges }
   Json.mkObj [
     ("nodes", strArr g.nodes),
@@ -56,7 +57,8 @@ def pgraphJson (g : PGraph String String Unit) : Json :=
     ("id", match g.id with | some s => Json.str s | none => Json.null),
     ("constraints", Json.arr (g.constraints.map fun c =>
         Json.arr (c.map fun e => strArr [e.1, e.2]).toArray).toArray),
-    ("n", optNatJ g.n), ("m", optNatJ g.m), ("w", Json.bool g.w.isSome)]
+    ("n", optNatJ g.n), ("m", optNatJ g.m),
+    ("w", match g.w with | some s => Json.str s | none => Json.null)]
 
 def errJson (e : PErr) : Json := Json.mkObj [("error", Json.str "ValueError"), ("kind", Json.str (errName e))]
 
@@ -66,8 +68,8 @@ def handleParser (op : String) (j : Json) : Option (Except String Json) :=
     let ints ← jList asIntEntry j "ints"
     let floats ← jList asFloatEntry j "floats"
     let single := (jBool j "single").toOption.getD false
-    let o : Oracles String String Unit :=
-      { parseInt := tableFn ints, parseFloat := tableFn floats, width := fun _ _ => () }
+    let o : Oracles String String String :=
+      { parseInt := tableFn ints, parseFloat := tableFn floats, width := fun _ _ => "oracle", zeroWidth := "0" }
     if single then
       match readGraph o lines with
       | .ok g => return Json.mkObj [("graphs", Json.arr #[pgraphJson g])]
